@@ -143,6 +143,21 @@ def run(case, ctx):
                 return ctx.fail(f"reduction/{f}/disagrees", f"Vector({vals}).{f}() = {red!r}, single-group aggregate {agg!r}, reference {want!r}")
     if R.snapshot_table(t) != snap:
         return ctx.fail("aggregate/input-modified", "table changed during aggregate")
+    # (d) the same call again after a key cell changed to a value hash() cannot tell from the old one
+    te = R.twin_edit(case, t, over)
+    if te is not None:
+        over2, kt2 = te
+        groups2 = ref_groups(kt2)
+        ctx.ev()
+        ctx.label("twin_edit")
+        over_arg2 = over2[0] if (case["single"] and nk == 1) else over2
+        res2 = t.aggregate(over=over_arg2, count_over=vspecs[0])
+        cols2 = [list(c) for c in res2.cols()]
+        want_k = [[g[0][c] for g in groups2] for c in range(nk)]
+        vals0 = case["vals"][0]["values"]
+        want_c = [ref_agg("count", [vals0[i] for i in g[1]]) for g in groups2]
+        if [[freeze(x) for x in c] for c in cols2[:nk]] != [[freeze(x) for x in c] for c in want_k] or cols2[-1] != want_c:
+            return ctx.fail("aggregate/stale-after-key-edit-to-hash-twin", f"keys now {kt2}: got {cols2}, want keys {want_k} counts {want_c}")
     if _interleaved(groups) and any(None in v["values"] for v in case["vals"]):
         ctx.nontrivial()
 
